@@ -639,6 +639,11 @@ impl<T: Payload> ChanDyn for Chan<T> {
             Instr::DropOp(_) => {
                 match std::mem::replace(&mut self.act, Act::None) {
                     Act::None => ev(&format!("drop{c}:none")),
+                    // the adapter's `Next` future only borrows the adapter: the read lives on inside it
+                    Act::AdNext => {
+                        self.act = Act::AdNext;
+                        return self.skip();
+                    }
                     other => {
                         ev(&format!("drop{c}"));
                         drop(other);
